@@ -28,5 +28,13 @@ CHECKS = {
         text="Lean model of Schema's analysis bookkeeping (storage, per-constituent info, lazily rebuilt UpdatableGraph reusing the C14 graph model, UpdateState, TriggerParse/ParseCst, SetDefinitionFor with the FindExpr short-cut, SetAliasFor, SubstitueAliases, TranslateAll, Insert/Load/Erase) with the per-constituent analysis instantiated on a definition fragment; the property 'incremental = from scratch' is stated over all histories; closed counterexample theorems record the pinned defect (stale self info), the statement for the repaired algorithm is proved or listed partial in the evidence. Tie: fragment histories compared report-by-report with the model and with the model's from-scratch analysis; general histories (all kinds, functions, predicates, texts) are judged on the implementation itself against a copy re-analysed from scratch.",
         note="Outside the definition fragment, and for the Thesaurus clause, only the implementation-level oracle applies. Hash-set iteration orders inside the graph updater are not modelled. The defect found (self reference / closed cycle accepted incrementally) was repaired by a fix: commit.",
     ),
+    "C11": dict(
+        text="Lean model of RSModel's value bookkeeping (AfterInsert, Erase, SetExpressionFor, ResetDependants, AddBasicElement, SetBasicText, ResetDataFor, Calculate, RecalculateAll) over the C07 schema model, evaluation instantiated on the fragment 'term = union of names'; the property 'no stale calculated value' is stated over all histories against a full recalculation; closed counterexample theorems record the three pinned defects; the statement for the repaired code is proved or listed partial in the evidence. Tie: fragment histories compared report-by-report with the model and with the model's recalculation; general histories (structures with data, statements, functions) judged on the implementation against a freshly loaded, fully recalculated model, in forked children (a crash is an observation).",
+        note="Outside the fragment only the implementation-level oracle applies. Found and repaired by fix: commits: stale dependants after SetExpressionFor / same-size SetBasicText / Erase, and the PruneStructure assertion on an untyped structure.",
+    ),
+    "C16": dict(
+        text="Lean transcription of SDCompact::Packer/Unpacker (cursor, row prefixes, unknown-count marker; every .at() an explicit oob outcome) with the structural predicate compat as specification; unbounded theorems by mutual structural induction: round trip (under the explicit no-marker hypothesis; the unrestricted statement is refuted in the model by a 10^7-element witness), no out-of-range access / no fault for any table and any well-formed type, every unpacked value is compatible. Tie: typed values, mutated and ragged tables, exhaustive small tables compared cell by cell with the real Packer/Unpacker; every value the implementation unpacks is re-checked with the Lean compat.",
+        note="Latent defect proved on the model only (a set of exactly unknownCount = 10 000 000 elements followed by a sibling does not round-trip); too large to replay under the sanitizer harness, recorded in DESIGN.md. Tuple arity 0/1 is only reachable through the raw Typification constructor (model and code agree).",
+    ),
 }
-NOT_APPLICABLE = {p: PENDING for p in ["C01","C02","C03","C04","C05","C06","C08","C10","C11","C12","C13","C15","C16","C17","C18","C19"]}
+NOT_APPLICABLE = {p: PENDING for p in ["C01","C02","C03","C04","C05","C06","C08","C10","C12","C13","C15","C17","C18","C19"]}
